@@ -25,6 +25,9 @@ def gen(rng, tier):
             elif r < 0.9: cmds.append("getall 0")
             else: cmds += ["newini 1", gens.set_cmd(rng, 1), "merge 2 0 1", "write 2"]
         cmds.append("freenull")
+        if rng.random() < 0.1:
+            # NULL arguments to econf_readFile: refused, the out-pointer stays NULL
+            cmds += ["readfile 9 - x3d x23", "readfile 9 %s - x23" % enc(b"/d/start.conf"), "readfile 9 %s x3d -" % enc(b"/d/start.conf"), "dump 9"]
         out.append(Scenario(cmds, tags=("history",)))
     for _ in range(n * 2):
         st = laylib.setup(rng, mode=rng.choice([0, 1, 2, 3]), owners=True, links=True, popts=True, relative=rng.random() < 0.2)
